@@ -376,7 +376,31 @@ def stage_programs(fam, n):
     return gen.family(fam, n, vlib.seed())
 
 
+CHUNK = 40     # programs per TLC run (larger batches are split: the prefix tree of a thorough batch can exceed TLC's time box)
+
+
+def merge_results(fam, parts):
+    summ = {"family": fam}
+    for r in parts:
+        for k, v in r["summary"].items():
+            if isinstance(v, (int, float)) and k != "family":
+                summ[k] = round(summ.get(k, 0) + v, 1) if isinstance(v, float) else summ.get(k, 0) + v
+    out = {"summary": summ, "problems": [p for r in parts for p in r["problems"]], "cached": all(r.get("cached") for r in parts)}
+    smp = [r.get("sample") for r in parts if r.get("sample")]
+    if smp:
+        out["sample"] = smp[-1]
+    return out
+
+
 def cached_pipeline(fam, progs, tier, cap, do_mc, sample=None, pb=None, clock=False):
+    if len(progs) > CHUNK:
+        parts = [cached_pipeline(fam, progs[i:i + CHUNK], tier, cap, do_mc, sample=sample, pb=pb, clock=clock)
+                 for i in range(0, len(progs), CHUNK)]
+        return merge_results(fam, parts)
+    return cached_pipeline1(fam, progs, tier, cap, do_mc, sample=sample, pb=pb, clock=clock)
+
+
+def cached_pipeline1(fam, progs, tier, cap, do_mc, sample=None, pb=None, clock=False):
     """Family results are shared between the checks of one tree: the key covers the harness binary
     (rebuilt from /repo's working tree just before), the specification, the tools and the programs."""
     import hashlib
@@ -392,7 +416,8 @@ def cached_pipeline(fam, progs, tier, cap, do_mc, sample=None, pb=None, clock=Fa
             return r
         except Exception:
             pass
-    out = os.path.join(vlib.WORK, f"run-{fam}-{tier}" + ("-s" if sample else "") + (f"-pb{pb}" if pb is not None else "") + ("-clk" if clock else ""))
+    out = os.path.join(vlib.WORK, f"run-{fam}-{tier}" + ("-s" if sample else "") + (f"-pb{pb}" if pb is not None else "") + ("-clk" if clock else "")
+                       + (f"-{progs[0]['id']}" if tier != "quick" and progs else ""))
     r = family_pipeline(fam, progs, out, cap=cap, do_mc=do_mc, sample=sample, pb=pb, clock=clock)
     r.pop("meta", None)
     # keep a few sample traces for the evidence
